@@ -1,5 +1,6 @@
 //! Library harness: C01, C02, C15 (event path) and C13 (fs worker) on a whole `Watchexec`.
 
+mod c01_real;
 mod evh;
 mod fsw;
 mod model;
@@ -61,6 +62,9 @@ fn main() {
 		"virtual time, 1 tick = 10 ms; the action worker measures its window on tokio's clock (cfg(watchexec_verif) seam)".to_string(),
 		"filesystem watcher replaced by FakeWatcher through the cfg(watchexec_verif) factory seam; real inotify delivery is out of reach".to_string(),
 	];
+	if prop == "C01" && args.rest.get(1).map(String::as_str) == Some("--real-leg") {
+		std::process::exit(c01_real::main_leg());
+	}
 	let code = match prop.as_str() {
 		"C01" | "C02" | "C13" | "C15" => {
 			let h = EvH { prop: prop.clone() };
@@ -72,7 +76,35 @@ fn main() {
 				return;
 			}
 			let rule = "every ENV order (sends per producer, ticks, handler completion, throttle change) of every scenario, and every order of configuration changes incl. landings inside watch/unwatch calls, times every SCHED/PREEMPT deviation set within the pass bound; non-trivial = the action handler ran / a path was registered; distinct = distinct observation logs";
-			orch::dex_main(&h, &args, &[prop], assumptions, rule)
+			let post: Option<orch::Post<'_>> = if prop == "C01" && args.worker.is_none() && args.replay.is_none() {
+				Some(Box::new(|cov, viols| {
+					let exe = std::env::current_exe().expect("exe");
+					let out = std::process::Command::new(exe).args(["C01", "--real-leg"]).stdin(std::process::Stdio::null()).output();
+					let Ok(o) = out else {
+						cov.insert("keyboard_real_leg".into(), serde_json::json!("not run"));
+						return;
+					};
+					let text = String::from_utf8_lossy(&o.stdout).to_string();
+					let line = text.lines().find(|l| l.starts_with("REAL case=")).unwrap_or("").to_string();
+					cov.insert("keyboard_real_leg".into(), serde_json::json!(line));
+					if line.contains(" ok=false ") && !line.contains("machinery:") {
+						viols.push(orch::ViolationRec {
+							property: "C01".into(),
+							key: "C01/real/keyboard-eof-event".into(),
+							detail: line,
+							harness: "h-lib/c01-real".into(),
+							scenario: serde_json::json!({"real_case": "keyboard-eof"}),
+							bounds: None,
+							choices: vec![],
+							log: vec![],
+							count: 1,
+						});
+					}
+				}))
+			} else {
+				None
+			};
+			orch::dex_main_with(&h, &args, &[prop], assumptions, rule, post)
 		}
 		_ => {
 			eprintln!("unknown property {prop}");
